@@ -30,19 +30,60 @@ import re
 
 from . import ir, repo
 
-ONE = 1
+ONE = frozenset()                 # the empty monomial: constant 1
+ONEBIT = frozenset([ONE])
+ZERO = frozenset()
+MONOMIAL_LIMIT = 4000
 
 
 class Unsupported(Exception):
     pass
 
 
+def atom_bit(a):
+    """the bit expression consisting of the single atom a"""
+    return frozenset([frozenset([a])])
+
+
+def atoms_of(bexpr):
+    """atoms of an affine bit expression (monomials of degree <= 1); raises on
+    non-linear terms"""
+    out = []
+    for mono in bexpr:
+        if len(mono) == 0:
+            out.append(None)
+        elif len(mono) == 1:
+            out.append(next(iter(mono)))
+        else:
+            raise Unsupported("non-linear term in an affine context")
+    return out
+
+
+def and_bits1(a, b):
+    """product of two bit polynomials over GF(2)"""
+    if not a or not b:
+        return ZERO
+    if a == ONEBIT:
+        return b
+    if b == ONEBIT:
+        return a
+    acc = {}
+    for m1 in a:
+        for m2 in b:
+            m = m1 | m2
+            acc[m] = acc.get(m, 0) ^ 1
+    r = frozenset(m for m, c in acc.items() if c)
+    if len(r) > MONOMIAL_LIMIT:
+        raise Unsupported("polynomial too large")
+    return r
+
+
 def const_bits(v, w):
-    return tuple(frozenset([ONE]) if (v >> k) & 1 else frozenset() for k in range(w))
+    return tuple(ONEBIT if (v >> k) & 1 else ZERO for k in range(w))
 
 
 def is_const(bits):
-    return all(b <= {ONE} for b in bits)
+    return all(b <= ONEBIT for b in bits)
 
 
 def to_int(bits):
@@ -75,22 +116,25 @@ class Machine:
         self.steps = 0
         self.opaque = 0
         self.objsize = {}
+        self.nonlinear = False      # allow products (ANF polynomials) instead of opaque atoms
+        self.hooks = {}             # callee name -> python function(machine, args)
+        self.force = {}             # (function, ssa id) -> value that replaces the computed one
 
     def new_obj(self, name, size, symbolic=True):
         self.objsize[name] = size
         for k in range(size):
             if symbolic:
-                self.mem[(name, k)] = tuple(frozenset([(name, k, b)]) for b in range(8))
+                self.mem[(name, k)] = tuple(atom_bit((name, k, b)) for b in range(8))
         return Ptr(name, 0)
 
     def opaque_bits(self, w, why):
         self.fresh += 1
         self.opaque += 1
-        return tuple(frozenset([("opaque", self.fresh, why, b)]) for b in range(w))
+        return tuple(atom_bit(("opaque", self.fresh, why, b)) for b in range(w))
 
     def random_bits(self, w):
         self.rnd += 1
-        return tuple(frozenset([("rnd", self.rnd, b)]) for b in range(w))
+        return tuple(atom_bit(("rnd", self.rnd, b)) for b in range(w))
 
     def load(self, p, nbytes):
         out = []
@@ -100,7 +144,7 @@ class Machine:
                 raise Unsupported("access outside object %s at offset %d" % (p.obj, p.off + k))
             b = self.mem.get(key)
             if b is None:
-                b = tuple(frozenset([("uninit", p.obj, p.off + k, bb)]) for bb in range(8))
+                b = tuple(atom_bit(("uninit", p.obj, p.off + k, bb)) for bb in range(8))
             out.extend(b)
         return tuple(out)
 
@@ -157,7 +201,7 @@ class Machine:
                     v = self.val(env, i.ops[0], i.d["vty"])
                     if isinstance(v, Ptr):
                         raise Unsupported("pointer store")
-                    bits = tuple(v) + tuple(frozenset() for _ in range(i.d["sz"] * 8 - len(v)))
+                    bits = tuple(v) + tuple(ZERO for _ in range(i.d["sz"] * 8 - len(v)))
                     self.store(p, bits)
                     continue
                 if op in ("bitcast",):
@@ -207,6 +251,8 @@ class Machine:
                 if op == "unreachable":
                     raise Unsupported("unreachable")
                 env[i.id] = self.binop(i, env)
+                if self.force and (fname, i.id) in self.force:
+                    env[i.id] = self.force[(fname, i.id)]
             if nxt is None:
                 raise Unsupported("fell off block")
             prev = b.name
@@ -254,7 +300,7 @@ class Machine:
         w = self.width(i.ty)
         if op in ("zext",):
             a = self.val(env, i.ops[0], i.d["fromty"])
-            return tuple(a) + tuple(frozenset() for _ in range(w - len(a)))
+            return tuple(a) + tuple(ZERO for _ in range(w - len(a)))
         if op == "sext":
             a = self.val(env, i.ops[0], i.d["fromty"])
             return tuple(a) + tuple(a[-1] for _ in range(w - len(a)))
@@ -270,10 +316,12 @@ class Machine:
         ca, cb = to_int(a), (to_int(b) if b is not None else None)
         if op == "and":
             if cb is not None:
-                return tuple(a[k] if (cb >> k) & 1 else frozenset() for k in range(w))
+                return tuple(a[k] if (cb >> k) & 1 else ZERO for k in range(w))
             if ca is not None:
-                return tuple(b[k] if (ca >> k) & 1 else frozenset() for k in range(w))
-            return self.opaque_bits(w, "and")
+                return tuple(b[k] if (ca >> k) & 1 else ZERO for k in range(w))
+            if not self.nonlinear:
+                return self.opaque_bits(w, "and")
+            return tuple(and_bits1(a[k], b[k]) for k in range(w))
         if op == "or":
             out = []
             for k in range(w):
@@ -281,8 +329,10 @@ class Machine:
                     out.append(b[k])
                 elif not b[k]:
                     out.append(a[k])
-                elif a[k] == frozenset([ONE]) or b[k] == frozenset([ONE]):
-                    out.append(frozenset([ONE]))
+                elif a[k] == ONEBIT or b[k] == ONEBIT:
+                    out.append(ONEBIT)
+                elif self.nonlinear:
+                    out.append(a[k] ^ b[k] ^ and_bits1(a[k], b[k]))
                 else:
                     return self.opaque_bits(w, "or")
             return tuple(out)
@@ -293,8 +343,8 @@ class Machine:
             if n >= w:
                 return const_bits(0, w)
             if op == "shl":
-                return tuple(frozenset() for _ in range(n)) + tuple(a[:w - n])
-            fill = a[-1] if op == "ashr" else frozenset()
+                return tuple(ZERO for _ in range(n)) + tuple(a[:w - n])
+            fill = a[-1] if op == "ashr" else ZERO
             return tuple(a[n:]) + tuple(fill for _ in range(n))
         if op in ("add", "sub", "mul", "udiv", "urem"):
             if ca is not None and cb is not None:
@@ -331,6 +381,8 @@ class Machine:
         args = [self.val(env, a, argty[k] if k < len(argty) else "i64") for k, a in enumerate(i.ops)]
         if cal.startswith("llvm.dbg") or cal.startswith("llvm.lifetime"):
             return None
+        if cal in self.hooks:
+            return self.hooks[cal](self, args)
         if cal == "ascon_trng_generate_64":
             return self.random_bits(64)
         if cal == "ascon_trng_generate_32":
@@ -425,10 +477,10 @@ class WordOps:
         cur = mc.load(wordptr, self.wsize)
         out = []
         for bexpr in lin:
-            acc = frozenset()
-            for atom in bexpr:
-                if atom == ONE:
-                    acc = acc ^ frozenset([ONE])
+            acc = ZERO
+            for atom in atoms_of(bexpr):
+                if atom is None:
+                    acc = acc ^ ONEBIT
                     continue
                 _, byte, bit = atom
                 acc = acc ^ cur[byte * 8 + bit]
@@ -443,7 +495,7 @@ def _eq(a, b):
 def _first_diff(a, b):
     for k, (x, y) in enumerate(zip(a, b)):
         if x != y:
-            return k, sorted(map(str, x ^ y))[:4]
+            return k, sorted(str(sorted(map(str, m))) for m in (x ^ y))[:4]
     return None
 
 
@@ -481,8 +533,8 @@ def check_word_ops(rep, rid, m, cname, maxs):
         used = {}
         for vb, bexpr in enumerate(lin):
             per_share = {}
-            for atom in bexpr:
-                if atom == ONE or atom[0] != "W":
+            for atom in atoms_of(bexpr):
+                if atom is None or atom[0] != "W":
                     shares_ok = False
                     continue
                 sh = atom[1] // 8
@@ -537,7 +589,7 @@ def check_word_ops(rep, rid, m, cname, maxs):
             if mc:
                 w, x = r
                 got = W.decode(K, mc, w)
-                want = be64(tuple(frozenset([("X", k // 8, k % 8)]) for k in range(64)))
+                want = be64(tuple(atom_bit(("X", k // 8, k % 8)) for k in range(64)))
                 if _eq(got, want):
                     ok(fn)
                 else:
@@ -557,7 +609,7 @@ def check_word_ops(rep, rid, m, cname, maxs):
                 got = W.decode(K, mc, d)
                 want = W.decode(K, mc, s)
                 cur = mc.load(d, W.wsize)
-                stale = [k for k in range(64 * K) if not any(isinstance(a, tuple) and a[0] == "rnd" for a in cur[k])]
+                stale = [k for k in range(64 * K) if not any(a is not None and a[0] == "rnd" for a in atoms_of(cur[k]))]
                 if not _eq(got, want):
                     bad(fn, src_of(fn), "re-randomising changes the encoded value (value bit %s differs by %s)" % _first_diff(got, want))
                 elif stale:
@@ -631,8 +683,8 @@ def check_word_ops(rep, rid, m, cname, maxs):
             mc, w = run(fn, s_l32)
             if mc:
                 got = W.decode(K, mc, w)
-                data = tuple(frozenset([("A", k // 8, k % 8)]) for k in range(32)) + \
-                    tuple(frozenset([("B", k // 8, k % 8)]) for k in range(32))
+                data = tuple(atom_bit(("A", k // 8, k % 8)) for k in range(32)) + \
+                    tuple(atom_bit(("B", k // 8, k % 8)) for k in range(32))
                 want = be64(data)
                 if _eq(got, want):
                     ok(fn)
@@ -653,7 +705,7 @@ def check_word_ops(rep, rid, m, cname, maxs):
                 mc, y = run(lp, s_part)
                 if mc:
                     got = mc.load(y, size)
-                    want = tuple(frozenset([("X", k // 8, k % 8)]) for k in range(size * 8))
+                    want = tuple(atom_bit(("X", k // 8, k % 8)) for k in range(size * 8))
                     if _eq(got, want):
                         ok("%s/%s size %d" % (lp, sp, size))
                     else:
